@@ -1,1 +1,130 @@
-(* stub: to be written by group Rates *)
+(* C13 - The exchange-rate cache never changes an answer.  Obligations of the
+   property; proofs live in Proofs/CacheProps.v.
+
+   [truth : calendar] is everything the Bank of Canada ever publishes.  A run
+   has its own today and sees the truth published before [avail]
+   (today <= avail <= today + 1: today's rate may or may not be out yet);
+   [run_ok truth today avail e] says that environment [e] is such a run.
+   [runs_ok truth t0 a0 runs params] says that the runs happen on successive
+   days: today and avail never go back.  [history true] is the model of the
+   code as it is after the fix ce46aed (a cached year is re-validated when a
+   requested date is missing from it); [history false] is the code before. *)
+From Coq Require Import List NArith ZArith QArith Qcanon Bool.
+From ACB Require Import Base.Outcome Base.QcExtra Base.Fit Base.Arith
+     Model.Rates Model.RatesCache Spec.RateRule Proofs.RatesProps Proofs.CacheProps.
+Import ListNotations.
+Local Open Scope Z_scope.
+
+(* Transparency and "at most one download per year per run", for EVERY
+   history: any number of runs, any force flags, any look-up sequence inside
+   each run, starting from any cache state earlier runs can have left behind
+   ([CacheOk]: every cached year is what some earlier run wrote).  The history
+   never fails, every answer equals what the same look-up gives without any
+   cache or loader state ([effective_ref], which C12 shows to be the rule),
+   and the download log of every run has no year twice. *)
+Theorem C13_transparent_and_download_once :
+  forall (truth : calendar) runs params t0 a0 s0,
+    runs_ok truth t0 a0 runs params ->
+    CacheOk truth t0 a0 (s_cache s0) ->
+    exists s' outs,
+      history true s0 runs = Ok (s', outs) /\
+      map fst outs = ref_answers truth runs params /\
+      Forall (fun o => NoDup (snd o)) outs.
+Proof. exact CacheProps.history_transparent. Qed.
+Check C13_transparent_and_download_once :
+  forall (truth : calendar) runs params t0 a0 s0,
+    runs_ok truth t0 a0 runs params ->
+    CacheOk truth t0 a0 (s_cache s0) ->
+    exists s' outs,
+      history true s0 runs = Ok (s', outs) /\
+      map fst outs = ref_answers truth runs params /\
+      Forall (fun o => NoDup (snd o)) outs.
+Print Assumptions C13_transparent_and_download_once.
+
+(* the empty cache is a legal starting point, and so is the cache any run leaves *)
+Theorem C13_cache_states : forall (truth : calendar) t a,
+  CacheOk truth t a [] /\
+  forall e s ds s' answers,
+    run_ok truth t a e -> Inv truth t a s ->
+    lookups true e s ds = Ok (s', answers) ->
+    CacheOk truth t a (s_cache s').
+Proof.
+  intros truth t a. split; [apply CacheProps.CacheOk_nil | ].
+  intros e s ds s' answers R I E.
+  destruct (CacheProps.lookups_step truth t a e ds s R I) as (s1 & E1 & I1).
+  rewrite E in E1. inversion E1; subst. exact (CacheProps.inv_cache _ _ _ _ I1).
+Qed.
+Check C13_cache_states : forall (truth : calendar) t a,
+  CacheOk truth t a [] /\
+  forall e s ds s' answers,
+    run_ok truth t a e -> Inv truth t a s ->
+    lookups true e s ds = Ok (s', answers) ->
+    CacheOk truth t a (s_cache s').
+Print Assumptions C13_cache_states.
+
+(* Unless a download is forced, none happens when the cached year covers the
+   requested date: one get_exact step whose date is in the cached year, and a
+   whole look-up whose date and 7 look-back days are in the cached years,
+   leave the download log (and the cache) unchanged -- from any reachable
+   loader state. *)
+Theorem C13_no_download_when_covered :
+  forall (truth : calendar) today avail e s d s',
+    run_ok truth today avail e -> Inv truth today avail s -> e_force e = false ->
+    (forall r, cache_has s d -> exact true e s d = Ok (s', r) ->
+               s_dl s' = s_dl s /\ s_cache s' = s_cache s) /\
+    (forall r, (forall x, d - 7 <= x <= d -> cache_has s x) ->
+               effective true e s d = Ok (s', r) -> s_dl s' = s_dl s).
+Proof.
+  intros truth today avail e s d s' R I F. split.
+  - intros r H E. exact (CacheProps.exact_covered truth today avail e s d s' r I F H E).
+  - intros r H E. exact (CacheProps.effective_covered truth today avail e s d s' r R I F H E).
+Qed.
+Check C13_no_download_when_covered :
+  forall (truth : calendar) today avail e s d s',
+    run_ok truth today avail e -> Inv truth today avail s -> e_force e = false ->
+    (forall r, cache_has s d -> exact true e s d = Ok (s', r) ->
+               s_dl s' = s_dl s /\ s_cache s' = s_cache s) /\
+    (forall r, (forall x, d - 7 <= x <= d -> cache_has s x) ->
+               effective true e s d = Ok (s', r) -> s_dl s' = s_dl s).
+Print Assumptions C13_no_download_when_covered.
+
+(* The code BEFORE the fix (validation only on the first access of a year in a
+   process) does not have the property: first run on 2022-01-11 asks for
+   5 January; second run on 2022-01-20 asks for 5 January, then 14 January.
+   The second look-up is answered with the rate of 10 January, with no
+   download, where a loader without cache answers with the rate of 14 January.
+   (Replayed on the real code by the check before the fix; kept as a theorem
+   about the model of the old code.) *)
+Theorem C13_unfixed_stale_within_run_refuted :
+  exists (truth : calendar) runs params,
+    runs_ok truth 0 0 runs params /\
+    exists s outs,
+      history false empty_st runs = Ok (s, outs) /\
+      map fst outs <> ref_answers truth runs params.
+Proof.
+  exists ex_truth, ex_runs, ex_params. split; [exact CacheProps.ex_runs_ok | ].
+  destruct CacheProps.unfixed_stale as (s & outs & E & N & _).
+  exists s, outs. split; assumption.
+Qed.
+Check C13_unfixed_stale_within_run_refuted :
+  exists (truth : calendar) runs params,
+    runs_ok truth 0 0 runs params /\
+    exists s outs,
+      history false empty_st runs = Ok (s, outs) /\
+      map fst outs <> ref_answers truth runs params.
+Print Assumptions C13_unfixed_stale_within_run_refuted.
+
+(* Non-vacuity: that very history satisfies the hypotheses of the main
+   theorem; with the fixed code both runs answer like the reference and each
+   downloads 2022 exactly once. *)
+Example C13_nonvacuous :
+  runs_ok ex_truth 0 0 ex_runs ex_params /\
+  CacheOk ex_truth 0 0 (s_cache empty_st) /\
+  exists s outs,
+    history true empty_st ex_runs = Ok (s, outs) /\
+    map fst outs = ref_answers ex_truth ex_runs ex_params /\
+    map snd outs = [[2022]; [2022]].
+Proof.
+  split; [exact CacheProps.ex_runs_ok | ]. split; [apply CacheProps.CacheOk_nil | ].
+  exact CacheProps.fixed_example.
+Qed.
